@@ -467,6 +467,11 @@ func (b *bitstream) validateAnnotatedValue(remainingLength uint64) error {
 		return &SyntaxError{"an annotation cannot be the enclosed value of another annotation", b.pos}
 	}
 
+	if code == bitcodeFalse {
+		// Booleans keep their value in the length nibble and have no body.
+		length = 0
+	}
+
 	// Adjust remainingLength because we just processed the first byte of the annotated data.
 	remainingLength--
 
